@@ -266,12 +266,9 @@ def r01_4_flatten(ctx):
     loopvars = {n.id for n in ast.walk(loop[0].target) if isinstance(n, ast.Name)}
     i_code = [i for i, s in enumerate(body) if isinstance(s, ast.AugAssign) and isinstance(s.value, ast.Name) and s.value.id in loopvars]
     ctx.check(bool(i_code) and i_lab < i_code[0], "R01.4", "flattenBlocks:label-before-code", "the label of a block must be appended before the block's ops", f"{f.module.rel}:{lab.lineno}", fact={"label_stmt": i_lab, "code_stmt": i_code})
-    # labels are memoised per index
-    il = [x for x in ctx.model.modules[f.module.name].all_funcs if x.qualname.endswith("flattenBlocks.<locals>.indexToLabel")]
-    il = q.one(il, "flattenBlocks.indexToLabel")
-    rets = q.returns_of(il.node)
-    ctx.check(len(rets) == 1 and isinstance(rets[0].value, ast.Subscript) and u(rets[0].value.slice) == il.params()[0], "R01.4", "flattenBlocks:one-label-per-index", "indexToLabel must return the memoised LabelReference of the index (one object per index, so that prefixing renames definition and uses together)", il.where, fact={"returns": [u(r.value) for r in rets]})
-    ctx.require_min("R01.4", 10)
+    # one LabelReference object per index (definition and uses renamed together by the prefixing pass) is decided by R01.4e:
+    # a use whose reference object is not the one of a label component is an undefined label there
+    ctx.require_min("R01.4", 9)
 
 
 def r01_5_sort(ctx):
